@@ -52,6 +52,11 @@ def _run_shard(args):
         mod = importlib.import_module(modname)
         env.import_repo()
         acc = mod.run_shard(cfg)
+        from . import hyp
+        for name, k in hyp.DROPPED.items():
+            acc.count("harness_exception_case_dropped:" + name, k)
+        if hyp.FIRST_TRACEBACK:
+            acc.extra.setdefault("harness_exception_first_traceback", hyp.FIRST_TRACEBACK[0])
         return ("ok", acc.to_dict())
     except env.HarnessError as exc:
         return ("harness", f"{exc}")
@@ -98,7 +103,7 @@ def main(argv=None):
     else:
         # hard watchdog: a shard that never returns (e.g. the library under test stuck inside a C extension, where the in-process
         # guards cannot interrupt) must not hang the check; the finished shards are still evaluated
-        cap = float(os.environ.get("VERIF_WALL_CAP", "1500" if ns.tier == "quick" else "14400"))
+        cap = float(os.environ.get("VERIF_WALL_CAP", "780" if ns.tier == "quick" else "14400"))
         ctx = mp.get_context("fork")
         pool = ctx.Pool(nproc, maxtasksperchild=1)
         try:
